@@ -15,7 +15,7 @@ Not covered by these theorems (trusted base §5.4): IEEE rounding.  The implemen
 not outwards; the exact oracle measures the resulting escape on every run.
 -/
 import Rooc.BoundsSem
-import Rooc.Proofs.BoundsFrame
+import Rooc.Proofs.BoundsNoNaN
 namespace Rooc.Props.C07
 open Rooc Rooc.BoundsSem Rooc.BoundsProofs Rooc.Sem
 
@@ -44,6 +44,21 @@ theorem infinite_coefficient_range_contains_nothing (v : K) :
   refine ⟨?_, fun ρ => by simp [eval]⟩
   simp [Analyzer.boundsOf, Exp.asNum, Analyzer.varBounds, AList.get?, Bounds.scale, Ext.eq, Ext.lt, Ext.mul, Ext.sign,
     Ext.sgn, Ext.ofSign, mem_iff]
+
+/-- `no_nan`: with finite literals and a NaN-free box, `bounds_of` never has a NaN endpoint (the infinite
+sums are repaired by `lower_sum`/`upper_sum`, `0 · c` is special-cased, a finite non-zero coefficient
+times ±inf is ±inf). -/
+theorem boundsOf_no_nan (vb : List (String × Bounds (Ext K))) (e : Exp (Ext K))
+    (hbox : ∀ name, NoNaN (Analyzer.varBounds vb name)) (hlit : finiteLits e = true) :
+    NoNaN (Analyzer.boundsOf vb e) :=
+  boundsOf_noNaN vb hbox e hlit
+
+example : ∃ (vb : List (String × Bounds (Ext K))) (e : Exp (Ext K)),
+    (∀ name, NoNaN (Analyzer.varBounds vb name)) ∧ finiteLits e = true :=
+  ⟨[("x", ⟨.ninf, .pinf⟩)], .bin .sub (.var "x") (.var "x"), by
+    intro n
+    by_cases h : "x" = n <;> simp [Analyzer.varBounds, AList.get?, h, NoNaN, Bounds.unbounded, Ext.isNaN], by
+    simp [finiteLits]⟩
 
 /-! ### intersection with tolerance -/
 
